@@ -142,13 +142,31 @@ def normExpr (σ : Store) : TExpr → TExpr
   | .app f x t => .app (normExpr σ f) (normExpr σ x) (normT σ t)
   | .shared k e => .shared k (normExpr σ e)
 
-/-- `Expr.fix()`. Python normalises each node's type as it goes, but the normalised type still *shares* its
-unresolved variables with the rest of the tree, so a variable that a later `fix` step resolves is seen resolved
-wherever the type is read afterwards; the model therefore normalises all node types against the final store. -/
-def fixExpr (L : Lang) (σ : Store) (e : TExpr) : Except Err (Store × TExpr) :=
-  match fixExprCore L σ e with
-  | .error err => .error err
-  | .ok (σ1, e1) => .ok (σ1, normExpr σ1 e1)
+/-- `Expr.fix()` (expr.py:240-258), in Python's order: children first, then the node's own type is fixed and
+*normalised at that moment* (`self.type = self.type.normalize()`). A variable that is still unbound at that
+moment stays in the stored type as a variable object; if a later step binds it, code that reads the stored type
+without following it (`Type.output()`, `isinstance(x.type, TypeOperation)`, hashing for `in canon`) still sees
+the variable. The graph model therefore receives these *stale* types together with the final store. -/
+def fixExpr (L : Lang) : Store → TExpr → Except Err (Store × TExpr)
+  | σ, .src i l t =>
+    match fix L exprFuel σ t false with
+    | .error e => .error e
+    | .ok (σ1, t1) => .ok (σ1, .src i l (normT σ1 t1))
+  | σ, .op n t => .ok (σ, .op n (normT σ t))
+  | σ, .app f x t =>
+    match fixExpr L σ f with
+    | .error e => .error e
+    | .ok (σ1, f1) =>
+      match fixExpr L σ1 x with
+      | .error e => .error e
+      | .ok (σ2, x1) =>
+        match fix L exprFuel σ2 t true with
+        | .error e => .error e
+        | .ok (σ3, t1) => .ok (σ3, .app f1 x1 (normT σ3 t1))
+  | σ, .shared k e =>
+    match fixExpr L σ e with
+    | .error err => .error err
+    | .ok (σ1, e1) => .ok (σ1, .shared k e1)
 
 /-- input expressions `Source()` supplied to the parser: fresh wildcard-typed sources with ids `0 … n-1` -/
 def mkInputs : Nat → XState → XState × List TExpr
